@@ -314,6 +314,7 @@ class TimeBase(np.ndarray):
         if id_b in memo:
             return memo[id_b][-1]
 
+        b_given = b
         b = b if a.scale == b.scale else getattr(b, a.scale)
         # Multi-column formats are read with one row per field, the values have one row per epoch
         b_formatted = np.asarray(b) if a.fmt == b.fmt else np.asarray(getattr(b, a.fmt)).T
@@ -321,8 +322,10 @@ class TimeBase(np.ndarray):
         jd1 = np.insert(a.jd1, pos, b.jd1)
         jd2 = np.insert(a.jd2, pos, b.jd2)
         new_time = cls._scales()[a.scale](val, fmt=a.fmt, _jd1=jd1, _jd2=jd2)
-        memo[id(a)] = (a, new_time)
-        memo[id(b)] = (b, new_time)
+        memo[id_a] = (a, new_time)
+        # The memo means identity: the entry goes under the id of the array that was handed in (and keeps it alive). The
+        # converted array is a cached value that another field may hold as well
+        memo[id_b] = (b_given, new_time)
         return new_time
 
     @property
